@@ -146,9 +146,19 @@ FirstClient(r, i) ==
     IF i > Len(r.clients) THEN OK
     ELSE LET v == ClientVerdict(r, r.clients[i], i) IN IF v # OK THEN v ELSE FirstClient(r, i + 1)
 
+\* handlers alive when Server::run returns, by the hook events (a handler is counted as gone from the
+\* first statement of its Drop)
+RECURSIVE AliveAtReturn(_, _)
+AliveAtReturn(hooks, cur) ==
+    IF hooks = <<>> THEN 0
+    ELSE LET e == Head(hooks)
+         IN IF e.name = "srv.run_return" THEN cur
+            ELSE AliveAtReturn(Tail(hooks), IF e.name = "srv.accepted" THEN cur + 1
+                                            ELSE IF e.name = "srv.handler_dropping" THEN cur - 1 ELSE cur)
 ShutdownVerdict(r) ==
     IF Has(r, "abort") THEN V("C16", "the server process died or hung")
     ELSE IF ~r.returned THEN V("C16", "Server::run did not return within the bound after the shutdown signal")
+    ELSE IF AliveAtReturn(r.hooks, 0) > 0 THEN V("C16", "Server::run returned while a connection was still being served")
     ELSE FirstClient(r, 1)
 
 -----------------------------------------------------------------------------------------
